@@ -48,11 +48,16 @@ def _seeded(seed, path, col):
     illegal depth and no HED key at the first or second level (only the sidecar validator can tell that it is wrong)"""
     if not (seed and seed["kind"] == "sc" and seed["path"] == path):
         return False
+    if seed.get("form") == "warn":
+        return "warn" if seed["col"] == col else False
     return "deep" if seed.get("form") == "deep" else (seed["col"] == col)
 
 
 def entry(path, col, bad=False, decoy=False):
     """content of the entry of column `col` in the sidecar file `path`: names its own source file"""
+    if bad == "warn":        # one category carries a tag that only draws a WARNING (an extension)
+        return {"Description": "column %s as given by %s" % (col, path),
+                "HED": {v: ("Item/Seededwarnext" if i == 0 else "Label/%s_%s_%s" % (_ident(path), col, v)) for i, v in enumerate(CATS[col])}}
     if bad == "deep":
         return {"Description": "column %s as given by %s" % (col, path),
                 "Levels": {v: {"HED": "Label/%s_%s_%s" % (_ident(path), col, v)} for v in CATS[col]}}
@@ -191,8 +196,11 @@ def pick_seed(tree, rng):
         # prefer a sidecar entry that is overridden for some file or inherited by some file: the interesting ones
         s = rng.choice(scs)
         sd = {"kind": "sc", "path": s["path"], "col": rng.choice(sorted(s["cols"]))}
-        if rng.random() < 0.3:
+        x = rng.random()
+        if x < 0.3:
             sd["form"] = "deep"
+        elif x < 0.45:
+            sd["form"] = "warn"     # the dataset then has warnings only: the issue list is empty unless warnings are asked for
         return sd
     return {"kind": "row", "path": rng.choice(evs)["path"], "row": rng.randrange(len(ROWS))}
 
@@ -218,7 +226,10 @@ def execute(case):
         out["clean"] = observe(tree, root, None, pl["w_clean"], pl["cli_clean"])
         if case.get("seed"):
             materialise(tree, root, case["seed"])
-            out["seeded"] = observe(tree, root, case["seed"], pl["w_seeded"], pl["cli_seeded"])
+            if case["seed"].get("form") == "warn":
+                out["seeded"] = observe(tree, root, case["seed"], [False, True], [["--check-for-warnings"], []])
+            else:
+                out["seeded"] = observe(tree, root, case["seed"], pl["w_seeded"], pl["cli_seeded"])
     finally:
         shutil.rmtree(root, ignore_errors=True)
     return dict(case, out=out)
@@ -313,7 +324,7 @@ def judge_run(tree, seed, obs, label):
             prob.append((key, "%s: hed_validator.main(%r) returned %r, the prescribed issue list has %d entries (validate() returned %d)"
                          % (label, flags, r["rc"], len(want["issues"][w]), len(got["issues"].get(w, [])))))
     # 5. seeded error: files reported with an error == files the specification says carry the seeded entry
-    if seed:
+    if seed and seed.get("form") != "warn":
         if seed["kind"] == "sc":
             hit = lambda m: any(src == seed["path"] and _seeded(seed, src, c) for c, src in (m or {}).items())
             dirty = {os.path.basename(s["path"]) for s in tree["sidecars"] if hit(s["merged"])}
@@ -341,7 +352,11 @@ def judge(case):
     # machinery sanity: a clean tree must be clean at error level according to the per-file validators
     if case["out"]["clean"]["want"]["issues"].get("False"):
         raise RuntimeError("concretisation is not clean: %s" % case["out"]["clean"]["want"]["issues"]["False"][:3])
-    if case.get("seed") and not case["out"]["seeded"]["want"]["issues"]["False"]:
+    if case.get("seed") and case["seed"].get("form") == "warn":
+        w = case["out"]["seeded"]["want"]["issues"]
+        if w["False"] or not w["True"]:
+            raise RuntimeError("warning-only seed is not warning-only for the per-file validators: %s" % w)
+    elif case.get("seed") and not case["out"]["seeded"]["want"]["issues"]["False"]:
         raise RuntimeError("seeded error is not reported by the per-file validators: %s" % case["seed"])
     return prob, drift
 
